@@ -193,6 +193,28 @@ def force_coverage(rep, prog, fn, ev, calls, forces, what):
                     if x_ is not None and x_.is_Symbol:
                         val = sp.nsimplify(float(lit["v"]))
                         neutral = all(ev.prove_zero(sp.sympify(c_).subs(x_, val)) for f_ in forces for c_ in f_)
+        if neutral is None and atom.get("k") == "BinaryOperator" and atom.get("op") in ("<", "<=", ">", ">="):
+            # the block is skipped for a whole range of values of X: the force would have to vanish on that range, which a force
+            # that depends on X (polynomially) cannot do
+            for a_, b_ in ((atom["c"][0], atom["c"][1]), (atom["c"][1], atom["c"][0])):
+                if strip(b_).get("k") in ("FloatingLiteral", "IntegerLiteral"):
+                    try:
+                        x_ = sp.sympify(ev.ev(a_))
+                    except S.Decline:
+                        x_ = None
+                    if x_ is not None and x_.is_Symbol:
+                        dep = False
+                        for f_ in forces:
+                            for c_ in f_:
+                                e_ = sp.sympify(c_)
+                                for _ in range(4):
+                                    e_, ch_ = ev.expand_once(e_)
+                                    if not ch_:
+                                        break
+                                if x_ in e_.free_symbols:
+                                    dep = True
+                        if dep:
+                            neutral = False
         if neutral:
             rep.ok("C02.force-coverage", prog, fn, atom, "%s: faces skipped by '%s' have an identically zero force" % (what, short(atom, 50)))
         elif neutral is False:
